@@ -13,7 +13,7 @@ import contextlib
 import io
 import os
 
-from vp import wb, wbgen
+from vp import realbooks, wb, wbgen
 
 PROP = 'C12'
 LEVEL = 'fault_enumeration'
@@ -28,7 +28,7 @@ FLOORS = {
               'kind:number-beyond': 60, 'kind:number-below': 60, 'kind:text': 20, 'kind:logical': 10,
               'kind:error': 10, 'kind:number-to-text': 30, 'kind:text-to-number': 10, 'not_implemented_cases': 30,
               'exception_cases': 30, 'other_reported_cells_checked': 100, 'tol:None': 100, 'tol:0.001': 100,
-              'outputs:chosen': 100, 'outputs:all': 100, 'prelude:noop-write': 40, 'prelude:read-input': 40},
+              'outputs:chosen': 100, 'outputs:all': 100, 'prelude:noop-write': 40, 'prelude:read-input': 40, 'real_book_validations': 25},
     'thorough': {'validate_calls': 12000, 'alterations': 8000, 'kind:logical': 300, 'kind:error': 300,
                  'not_implemented_cases': 600, 'exception_cases': 600},
 }
@@ -272,6 +272,8 @@ def one_workbook(ctx, rng, spec, meta, n_alter):
 def run(ctx):
     rng = ctx.rng
     i = 0
+    # the workbooks shipped with the repository with one stored result altered in the file
+    realbooks.run_cases(ctx, realbooks.c12_case, realbooks.acyclic_books(), 8 if ctx.quick else 80, fraction=0.25)
     while not ctx.out_of_time():
         i += 1
         spec, meta = wbgen.dag(rng, arrays=(i % 4 == 0), formula_ratio=0.65)
@@ -279,6 +281,9 @@ def run(ctx):
 
 
 def replay(ctx, case):
+    if case.get('kind') == 'real-book':
+        realbooks.c12_case(ctx, case['book'], case['case_seed'])
+        return
     if case.get('unevaluable'):
         spec = case['spec']
         truth = {}
